@@ -676,8 +676,12 @@ var nftRoles = []string{oracle.RoleNFTCreate, oracle.RoleNFTAddQty, oracle.RoleN
 
 // createArgs builds ESDTNFTCreate arguments.
 func (g *gen) createArgs(tok []byte, qty uint64, nURIs int) [][]byte {
+	hash := []byte("hash" + strconv.Itoa(g.r.Intn(1000)))
+	if g.r.Intn(10) == 0 {
+		hash = []byte{} // an NFT may be created with an empty hash: it is a hash like any other for the destination check
+	}
 	args := [][]byte{tok, be(qty), []byte("name" + strconv.Itoa(g.r.Intn(100))), be(uint64(g.r.Intn(10001))),
-		[]byte("hash" + strconv.Itoa(g.r.Intn(1000))), []byte("attr" + strconv.Itoa(g.r.Intn(10)))}
+		hash, []byte("attr" + strconv.Itoa(g.r.Intn(10)))}
 	for i := 0; i < nURIs; i++ {
 		args = append(args, []byte("uri"+strconv.Itoa(i)))
 	}
